@@ -259,6 +259,10 @@ impl Driver for C11 {
                 if rng.gen_bool(0.5) {
                     m.names = (0..m.n()).map(|i| ["x", "y", "z", "w"][i].to_string()).collect();
                 }
+                if rng.gen_bool(0.1) && m.sense != Sense::Satisfy {
+                    // integral values beyond 2^63 can only be written as decimals
+                    m.obj = E::add(m.obj.clone(), E::Num([3e19, 1e21, 2.5e20][rng.gen_range(0..3)]));
+                }
                 let style = Style::random(&mut rng);
                 model_text(&m, &mut rng, style)
             };
